@@ -22,8 +22,7 @@ open Driver PtNum PtModel.Activation
 
 abbrev F := Float
 
-def consts : Consts F :=
-  { ln2 := Transc.log (PtGen.ActivationDat.ln2Arg : F), uCi := PtGen.ActivationDat.uCi.toNum }
+def consts : Consts F := PtGen.ActivationDat.consts
 
 def tableArr : Array DRow := PtGen.ActivationDat.table.toArray
 
